@@ -257,7 +257,12 @@ func emitDIDDocRoundTrip(out *Out, r *Rng) {
 	var auth []any
 	for i := 0; i < r.Intn(4); i++ {
 		if r.Bool() {
-			auth = append(auth, fmt.Sprintf("did:example:%d#key-%d", r.Intn(99), i))
+			ref := fmt.Sprintf("did:example:%d#key-%d", r.Intn(99), i)
+			if r.Chance(40) {
+				// DID URLs carry queries and any characters in them; the JSON spelling of the string is not the string
+				ref = fmt.Sprintf("did:example:%d%s#key-%d", r.Intn(99), r.Pick([]string{"?service=a&relativeRef=%2Fb", "?versionId=<1>", "?a=\"q\"", "?p=c:\\d", "/path/é", "?x=\u2028y", "?tab=\tz", ";k=v"}), i)
+			}
+			auth = append(auth, ref)
 		} else {
 			auth = append(auth, map[string]any{"id": fmt.Sprintf("k%d", i), "type": "JsonWebKey2020", "controller": "c", "publicKeyJwk": map[string]any{"kty": "EC", "crv": "secp256k1"}})
 		}
@@ -334,6 +339,13 @@ func emitDIDDocRoundTrip(out *Out, r *Rng) {
 		why = append(why, fmt.Sprintf("DID document changes under decode/encode: %s -> %s", trunc(string(b0), 300), trunc(string(b1), 300)))
 	}
 	for i := range d1.Authentication {
+		if ref, ok := auth[i].(string); ok && (i >= len(d1.Authentication) || !d1.Authentication[i].IsDID() || d1.Authentication[i].DID() != ref) {
+			why = append(why, fmt.Sprintf("authentication reference %q is decoded as %q", ref, d1.Authentication[i].DID()))
+		}
+		if i >= len(d2.Authentication) {
+			why = append(why, "authentication entries are lost under the round trip")
+			break
+		}
 		if d1.Authentication[i].IsDID() != d2.Authentication[i].IsDID() || d1.Authentication[i].DID() != d2.Authentication[i].DID() {
 			why = append(why, "authentication entry changes form under the round trip")
 		}
